@@ -38,6 +38,15 @@ func checkC03(c *Ctx) {
 	c.Rule("S1 required.reported (sibling rule, hclsyntax.Body.PartialContent and json.body.PartialContent): each reads AttributeSchema.Required of the schema's attributes (itself or through a helper of its package) and, on the Required edge of every branch on it, reaches the construction of an error diagnostic; no error diagnostic is built on the not-Required edge alone")
 	c03Required(c, nat)
 	c03Required(c, jpc)
+	if c.Thorough() {
+		// the same sibling rule for the body that merges several files (both syntaxes are merged by it)
+		if mc := c.P.LookupFunc("", "mergedBodies.mergedContent"); mc != nil {
+			c.Fn(FuncName(mc))
+			c03Required(c, mc)
+		} else {
+			c.CheckerFail("anchors", "hcl.mergedBodies.mergedContent does not resolve")
+		}
+	}
 	c.Rule("S2 dup.reported (json.body.PartialContent, JustAttributes; the native counterpart is the parser rule C02 dup.reject): an attribute is stored into the result map only on the not-present edge of a lookup of the same key in the same map, and the present edge builds an error diagnostic and does not store")
 	c03DupReported(c, jpc, jja)
 	c.Rule("S3 labels.exact: (native) the block that hclsyntax.Body.PartialContent appends to its result is appended only on paths where the comparisons of len(block.Labels) with len(blockS.LabelNames) have established equality; (JSON) body.unpackBlock constructs a block only on the edge where no label name is left (len(labelsLeft) > 0 is false), every recursive call hands on labelsLeft[1:] together with a used-label list that is one longer, and the Labels of the constructed block are a copy of that list — both syntaxes only hand out blocks with exactly as many labels as the schema names")
